@@ -658,8 +658,16 @@ class SimPool:
         self.jobs = 0
         sim.log(f"pool{self.id} n={len(self.workers)}")
         if initializer is not None:
+            # real pools run the initializer in every freshly forked worker, on a pickled copy of initargs
+            # taken when the pool is created; whatever it stores at module level stays in that worker
+            try:
+                blob = pickle.dumps(tuple(initargs))
+            except Exception as e:
+                raise e
             for w in self.workers:
-                initializer(*initargs)
+                out, _ = _exec_task(sim, self, w, _Init(initializer), blob, None)
+                if not out[0]:
+                    raise out[1]
 
     # context manager --------------------------------------------------
     def __enter__(self):
@@ -672,6 +680,17 @@ class SimPool:
     def _check_running(self):
         if self.terminated or self.closed:
             raise ValueError("Pool not running")
+        cur = CURRENT
+        if cur is not None and cur is not self.sim:
+            self.sim = cur
+            self.id = cur.pool_count
+            cur.pool_count += 1
+            self.jobs = 0
+            for w in self.workers:
+                w.free = 0.0
+            self.ready_at = cur.now
+            cur.probes["pool_reused_across_calls"] += 1
+            cur.log(f"pool{self.id} adopted n={len(self.workers)}")
 
     def _site(self, kind):
         s = f"pool{self.id}/{kind}{self.jobs}"
@@ -731,6 +750,9 @@ class SimPool:
 
     def terminate(self):
         if not self.terminated:
+            cur = CURRENT
+            if cur is not None and cur is not self.sim:
+                self.sim = cur
             self.terminated = True
             self.terminated_at = self.sim.now
             self.sim.log(f"pool{self.id} terminate")
@@ -744,6 +766,17 @@ class SimPool:
         if t == INF:
             raise SimDeadlock(f"pool{self.id}: join() on a pool with a stalled worker")
         self.sim.now = max(self.sim.now, t)
+
+
+class _Init:
+    def __init__(self, func):
+        self.func = func
+        self.__module__ = getattr(func, "__module__", "?")
+        self.__qualname__ = "init:" + getattr(func, "__qualname__", repr(func))
+
+    def __call__(self, args):
+        self.func(*args)
+        return None
 
 
 class _Star:
